@@ -193,6 +193,7 @@ fn main() {
         ("Tls", gen_tls),
         ("KeepAlive", gen_keepalive),
         ("Compression", gen_compression),
+        ("Client", gen_client),
     ];
     let mut failed = false;
     for (name, f) in steps {
@@ -905,5 +906,47 @@ fn gen_compression(repo: &Path, g: &mut Gen) -> R<()> {
         sources.push(c_rel); sources.push(d_rel);
     }
     g.emit("Compression", &sources, &s);
+    Ok(())
+}
+
+// ------------------------------------------------------------------------------------------- client
+
+/// does the body call `self.<method>(…)` (a method calling itself: one stack frame per round)?
+fn calls_self_method(b: &syn::Block, method: &str) -> bool {
+    struct V<'a> { method: &'a str, found: bool }
+    impl<'ast, 'a> syn::visit::Visit<'ast> for V<'a> {
+        fn visit_expr_method_call(&mut self, m: &'ast syn::ExprMethodCall) {
+            let r = &m.receiver;
+            let recv = quote::quote!(#r).to_string();
+            if m.method == self.method && (recv == "self" || recv.starts_with("self .") || recv.starts_with("Pin :: new (")) { self.found = true; }
+            syn::visit::visit_expr_method_call(self, m);
+        }
+    }
+    let mut v = V { method, found: false };
+    syn::visit::Visit::visit_block(&mut v, b);
+    v.found
+}
+
+fn gen_client(repo: &Path, g: &mut Gen) -> R<()> {
+    let sub_rel = "client/src/streams/pubsub/subscriber.rs";
+    let sub = Src::load(repo, sub_rel)?;
+    let mut pn = None;
+    for it in &sub.ast.items {
+        if let Item::Impl(im) = it {
+            let ty = &im.self_ty;
+            let is_sub = quote::quote!(#ty).to_string().starts_with("Subscriber");
+            let is_stream = im.trait_.as_ref().map(|(_, p, _)| p.segments.last().unwrap().ident == "Stream").unwrap_or(false);
+            if is_sub && is_stream {
+                for ii in &im.items { if let ImplItem::Fn(f) = ii { if f.sig.ident == "poll_next" { pn = Some(f); } } }
+            }
+        }
+    }
+    let pn = pn.ok_or_else(|| Shape(format!("{sub_rel}: `impl Stream for Subscriber` has no fn poll_next")))?;
+    // `self.poll_next(cx)` / `self.as_mut().poll_next(cx)` inside poll_next: the subscriber re-enters itself for the
+    // frame after a batch; `self.stream.poll_next_unpin(cx)` (the inner stream) is a different method
+    let recurses = calls_self_method(&pn.block, "poll_next");
+    let mut s = String::new();
+    let _ = writeln!(s, "/-- {sub_rel}: does `Subscriber::poll_next` call itself (one stack frame per frame that yields nothing)? -/\ndef subscriberPollNextRecurses : Bool := {recurses}");
+    g.emit("Client", &[sub_rel], &s);
     Ok(())
 }
